@@ -15,9 +15,12 @@ DESIGN_REF = "DESIGN.md section 5, C35"
 TECHNIQUE = ("Coq theorems by induction on the fuel with 'every read consumes at least one byte' lemmas (the LEB128 readers of "
              "C03, the fixed-width reads) about hand-written models of the loops the property is anchored in - the string "
              "reader (C06), the ARSCHeader dummy-data skip loop, the DebugInfoItem parameter and opcode loops, the "
-             "HiddenApiClassDataItem offset and flag loops: a fuel linear in the number of bytes is never exhausted; models "
-             "tied to the source by a differential run on generated, truncated and adversarial byte strings; the complete "
-             "parsers are run under a time limit on mutated shipped and generated files")
+             "HiddenApiClassDataItem offset and flag loops, the whole binary XML parser and resource table walk, and the DEX map "
+             "list with thirteen kinds of sections through one generic lemma (a loop over a reader that fails or leaves fewer "
+             "bytes runs at most bytes + 1 times, whatever the count): a fuel linear in the number of bytes is never "
+             "exhausted; models tied to the source by a differential run on generated, truncated and adversarial byte "
+             "strings (for the map list: the start position of every object the real MapList creates); the complete parsers "
+             "are run under a time limit on mutated shipped, generated and crafted files")
 LEVEL_TEXT = ("Partial. Unbounded proof: for every byte string (and start position) each of the four modelled loops ends within "
               "(bytes left + 1) iterations - it returns a result or raises; counts and sizes read from the input (a parameter "
               "count of 2^32-1, a section size of 2^32-1) do not matter, because every iteration reads at least one byte and a "
